@@ -4,7 +4,6 @@ import (
 	"fmt"
 	"gopkg.in/yaml.v3"
 	"os"
-	"path/filepath"
 	"sync"
 	"time"
 )
@@ -64,8 +63,12 @@ func (bf *BanFile) Add(ip string, until *time.Time) error {
 		return fmt.Errorf("marshal yaml: %v", err)
 	}
 
-	err = os.WriteFile(filepath.Join(bf.filePath), out, 0644)
-	if err != nil {
+	// Write to a temporary file and rename it over the ban list so that a crash never leaves a truncated file.
+	tempFilePath := bf.filePath + ".tmp"
+	if err := os.WriteFile(tempFilePath, out, 0644); err != nil {
+		return fmt.Errorf("write file: %v", err)
+	}
+	if err := os.Rename(tempFilePath, bf.filePath); err != nil {
 		return fmt.Errorf("write file: %v", err)
 	}
 
